@@ -436,6 +436,7 @@ func ruleR07m(c *Ctx) {
 		_, tn, ok := relPkgOfType(t)
 		return ok && tn == "SoyDocNode"
 	}
+	var scopeOf ast.Node // body of the helper being followed, for resolving its locals
 	var okExpr func(e ast.Expr, depth int) (bool, string)
 	okExpr = func(e ast.Expr, depth int) (bool, string) {
 		e = ast.Unparen(e)
@@ -443,6 +444,43 @@ func ruleR07m(c *Ctx) {
 		case *ast.Ident:
 			if x.Name == "nil" {
 				return true, ""
+			}
+			// a local whose every definition is itself acceptable (sdn, ok := body[i-1].(*ast.SoyDocNode))
+			if obj := info.Uses[x]; obj != nil && scopeOf != nil {
+				defs, good := 0, 0
+				why := ""
+				ast.Inspect(scopeOf, func(y ast.Node) bool {
+					as, ok := y.(*ast.AssignStmt)
+					if !ok {
+						return true
+					}
+					for i, l := range as.Lhs {
+						li, ok := l.(*ast.Ident)
+						if !ok || (info.Defs[li] != obj && info.Uses[li] != obj) {
+							continue
+						}
+						defs++
+						r := as.Rhs[0]
+						if len(as.Rhs) == len(as.Lhs) {
+							r = as.Rhs[i]
+						}
+						if _, same := ast.Unparen(r).(*ast.Ident); same {
+							continue
+						}
+						if g, w := okExpr(r, depth+1); g {
+							good++
+						} else {
+							why = w
+						}
+					}
+					return true
+				})
+				if defs > 0 && defs == good {
+					return true, ""
+				}
+				if why != "" {
+					return false, why
+				}
 			}
 		case *ast.UnaryExpr:
 			if _, ok := x.X.(*ast.CompositeLit); ok {
@@ -467,6 +505,8 @@ func ruleR07m(c *Ctx) {
 			for _, hd := range c.allFuncDecls("template") {
 				if fn, _ := info.Defs[hd.Name].(*types.Func); fn != nil && fn == cal {
 					good, why := true, ""
+					scopeOf = hd.Body
+					defer func() { scopeOf = nil }()
 					ast.Inspect(hd.Body, func(y ast.Node) bool {
 						if r, ok := y.(*ast.ReturnStmt); ok && len(r.Results) >= 1 {
 							if g, w := okExpr(r.Results[0], depth+1); !g {
